@@ -98,9 +98,38 @@ def ret_discr(ctx, r):
     raise Inconclusive("authorize() returned %r on some path" % (v,))
 
 
+def check_handler_enforces(rep, ctx):
+    """'never relayed': the handler acts on authorize()'s Forbidden on every one of its paths (any method, URL, headers)"""
+    from handler_model import HandlerModel
+    hm = HandlerModel(ctx, rep)
+    n_relay = n_forb = 0
+    for p in hm.paths:
+        if p.r.status != "return":
+            continue
+        var = p.var_forbidden()
+        if p.relays:
+            n_relay += 1
+            qn = "handler path %d relays => authorize() was consulted and did not return Forbidden" % p.i
+            if var is None:
+                rep.add(Query(qn, "violated", "the relay path never evaluates authorize()'s result", 0, "mirsym", key="C03.handler:forbidden-enforced", reproduced=None))
+                continue
+            bad = add_query(rep, qn, p.pc + [var], key="C03.handler:forbidden-enforced")
+            if bad:
+                rep.add(Query(qn, "violated", "relay reachable although authorize() returned Forbidden; path %s" % (p.describe() if hasattr(p, "describe") else p.i,), bad[1], "mirsym+z3",
+                              key="C03.handler:forbidden-enforced", model=bad[0], reproduced=None))
+        elif var is not None and p.implied(var):
+            n_forb += 1
+            resp = p.response()
+            rep.add(Query("handler path %d: Forbidden => 403, nothing relayed" % p.i, "holds" if resp == ("status", "FORBIDDEN") else "violated", "response %r" % (resp,), 0, "mirsym+z3",
+                          key="C03.handler:forbidden-status", reproduced=None))
+    rep.add(Query("witness: handler has relay paths and Forbidden refusals", "witness-hit" if n_relay and n_forb else "witness-missed", "%d/%d" % (n_relay, n_forb), 0, "mirsym"))
+    rep.bounds["handler"] = "%d complete handler paths; every .await assumed to complete" % len(hm.paths)
+
+
 def check(rep, tier, seed):
     ctx = Ctx("agent")
     rep.extra["mir_dump"] = {"cache_hit": ctx.dump.cache_hit, "tree_hash": ctx.dump.hash, "seconds": round(ctx.dump.seconds, 1)}
+    check_handler_enforces(rep, ctx)
     check_authorize(rep, ctx)
 
 
@@ -164,8 +193,7 @@ def check_authorize(rep, ctx):
                       key="C03.const:" + k, reproduced=True if consts.get(k) != v else None, nontrivial=False))
     rep.assumptions += ["rustc nightly MIR (built phase) is the semantics of the stable build",
                         "is_allowed / logger / to_string are uninterpreted: any return value, no effect on the decision other than through it"]
-    rep.outside_claim += ["that the handler acts on Forbidden with 403 and no relay (decided by C01)",
-                          "correctness of the kernel's elevation bit (C06)"]
+    rep.outside_claim += ["correctness of the kernel's elevation bit (C06)"]
     rep.trusted += ["z3 4.8.12 (sequence theory for the ip string)", "mirsym MIR semantics (lib/mirsym.py)"]
 
     import e2e
